@@ -316,8 +316,15 @@ pub fn run(ctx: &Ctx) -> Outcome {
                         let mut o = rec::buf_from_state(cfg, d, &key, &iv, pos);
                         let mut buf = data[..l].to_vec();
                         o.process(&mut buf);
-                        let (_, p2) = o.get_state();
-                        ensure!(p2 < bs, format!("invalid_exported_pos/bufcfb-{}", d.dir.s()), "{} exported position {} (block size {})", d.ty, p2, bs);
+                        // whatever the object exports now is a valid exported state by definition (its representation is the
+                        // implementation's business): resuming from it and processing 1 / bs+1 bytes must not panic either
+                        let (b2, p2) = o.get_state();
+                        for l2 in [1usize, bs + 1] {
+                            let mut o2 = rec::buf_from_state(cfg, d, &key, &b2, p2);
+                            let mut buf2 = data[..l2].to_vec();
+                            o2.process(&mut buf2);
+                            let _ = o2.get_state();
+                        }
                         Ok(())
                     });
                 }
